@@ -69,6 +69,8 @@ def build_tree(dirpath: str, node: dict, sb: str):
             with open(p, "w", encoding="utf-8") as fd:
                 # a package's __init__.py must stay importable: it is an empty decoy
                 fd.write("" if name == "__init__.py" else CONTENT_PREFIX + str(ch["f"]))
+            if "t" in ch:
+                os.utime(p, (ch["t"], ch["t"]))
         elif "l" in ch:
             os.symlink(ch["l"].replace("$SB", sb), p)
         else:
@@ -434,6 +436,18 @@ def lexically_inside(path: str, bases: list) -> bool:
     return False
 
 
+def used_verbatim(path: str, bases: list, name: str, ext) -> bool:
+    """the path a loader returns is a search directory followed by exactly the components pathlib sees in the
+    name (ext appended to the last one when it has no suffix): no case folding, no unicode normalisation"""
+    from pathlib import PurePosixPath
+
+    pp = PurePosixPath(path).parts
+    want = list(PurePosixPath(name).parts)
+    if want and ext and not PurePosixPath(name).suffix:
+        want[-1] += ext
+    return any(pp[: len(bp)] == bp and list(pp[len(bp):]) == want for bp in (PurePosixPath(b).parts for b in bases))
+
+
 _PKG_COUNTER = [0]
 
 
@@ -498,7 +512,7 @@ class LoaderStream(Stream):
                 bases = [b if b.startswith("/") else os.path.join(sb, b) for b in self.bases(case, sb, pkg)]
                 allowed = allowed_ids(bases, bool(case.get("rej")))
                 checks = []
-                for r in results:
+                for r, real_name in zip(results, names):
                     if "ok" in r and r["ok"][0] is not None:
                         p = r["ok"][0]
                         ap = p if p.startswith("/") else os.path.join(sb, p)
@@ -508,7 +522,7 @@ class LoaderStream(Stream):
                         except (OSError, ValueError):
                             same = False
                         real = any(_under(os.path.realpath(ap), os.path.realpath(b)) for b in bases)
-                        checks.append([lexically_inside(ap, bases), same, real])
+                        checks.append([lexically_inside(ap, bases), same, real, used_verbatim(ap, bases, real_name, case["ext"])])
                     else:
                         checks.append(None)
             finally:
@@ -555,7 +569,9 @@ class LoaderStream(Stream):
                 if cid not in allowed:
                     return (f"{self.kind}|outside|{nc}", f"name {name[:120]!r} returned content {cid!r} of {path!r}, not a file inside the search path (reject_symlinks={case.get('rej')})")
                 if which == "results" and obs["checks"][i] is not None:
-                    lex, same, real = obs["checks"][i]
+                    lex, same, real, verb = obs["checks"][i]
+                    if not verb and lex:
+                        return (f"{self.kind}|name-not-used-verbatim|{nc}", f"name {name[:120]!r} resolved to {path!r}: not the components pathlib sees in the name")
                     if not lex:
                         return (f"{self.kind}|path-not-under-search-dir|{nc}", f"name {name[:120]!r} resolved to {path!r}")
                     if not same:
@@ -988,5 +1004,177 @@ class FsPrimStream(Stream):
                 yield {"tree": case["tree"], "paths": [p]}
 
 
+# ---------------------------------------------------------------------------------------------
+# the caching loader over a file system that changes between requests
+# ---------------------------------------------------------------------------------------------
+def mtime_table(tree: dict, sb: str) -> list:
+    out = []
+
+    def rec(node, comps):
+        for n, ch in node["d"].items():
+            if "f" in ch:
+                out.append([[cps(c) for c in comps + [n]], ch.get("t", 0)])
+            elif "d" in ch:
+                rec(ch, comps + [n])
+
+    rec(tree, [c for c in sb.split("/") if c])
+    return out
+
+
+def tree_set(tree: dict, path: str, node):
+    """pure update of a spec tree: put `node` (or delete when None) at the relative `path`"""
+    import copy
+
+    t = copy.deepcopy(tree)
+    parts = path.split("/")
+    d = t
+    for c in parts[:-1]:
+        d = d["d"][c]
+    if node is None:
+        d["d"].pop(parts[-1], None)
+    else:
+        d["d"][parts[-1]] = node
+    return t
+
+
+class CacheStream(Stream):
+    """CachingFileSystemLoader asked repeatedly while files are replaced (by other files, by links that stay
+    inside, by links to decoys, by directories, or removed) with equal or different mtimes, auto-reload on/off,
+    capacities 1..3, sync or async — against `cachedRun`. Direct oracle: no answer is ever a content that was
+    not inside the search directories at this or an earlier request; only TemplateNotFoundError is raised."""
+
+    name = "cache"
+
+    def cases(self, ctx):
+        self.parallel = ctx.tier == "thorough"
+        rng = ctx.rng_for("cache")
+        out = []
+        for _ in range(ctx.scale(70, 1000)):
+            nid = [1]
+
+            def f(t=None):
+                nid[0] += 1
+                return {"f": nid[0], "t": t if t is not None else rng.choice([1000, 2000, 3000])}
+
+            tree = {"d": {"root": {"d": {"a.txt": f(), "b.txt": f(), "noext": f(), "sub": {"d": {"c.txt": f()}}}},
+                          "root2": {"d": {"a.txt": f(), "only2.txt": f()}},
+                          "outside": {"d": {"secret.txt": f(), "s2.txt": f(1000), "dir": {"d": {"c.txt": f()}}}}}}
+            targets = ["root/a.txt", "root/b.txt", "root/sub/c.txt", "root/sub", "root/noext", "root2/only2.txt", "outside/secret.txt"]
+            names = ["a.txt", "a.txt", "b.txt", "./a.txt", "sub/c.txt", "noext", "only2.txt", "sub//c.txt", "a", "missing.txt"]
+            steps = []
+            for _ in range(rng.range(6, 14)):
+                if rng.chance(55):
+                    steps.append({"op": "load", "name": rng.choice(names)})
+                else:
+                    path = rng.choice(targets)
+                    up = "../" * (path.count("/"))
+                    node = rng.choice([f(), f(1000), f(2000), {"l": up + "outside/secret.txt"}, {"l": up + "outside/s2.txt"},
+                                       {"l": "b.txt"}, {"l": "$SB/outside/secret.txt"}, {"l": up + "outside/dir"}, {"d": {}}, None,
+                                       {"l": up + "root2/only2.txt"}])
+                    steps.append({"op": "set", "path": path, "node": node})
+            steps.append({"op": "load", "name": "a.txt"})
+            out.append({"tree": tree, "search": rng.choice([["$SB/root"], ["$SB/root"], ["$SB/root", "$SB/root2"], ["$SB/rootlnk"]]),
+                        "ext": rng.choice([None, None, ".txt"]), "rej": rng.chance(60), "auto": rng.chance(60), "cap": rng.range(1, 3),
+                        "mode": rng.choice(["sync", "async"]), "steps": steps})
+        return out
+
+    @staticmethod
+    def start_tree(case):
+        t = dict(case["tree"]["d"])
+        t["rootlnk"] = {"l": "root"}
+        return {"d": t}
+
+    def impl(self, case):
+        import asyncio
+
+        from liquid import CachingFileSystemLoader
+        from liquid import Environment
+        from liquid import FileSystemLoader
+
+        with Sandbox(self.start_tree(case)) as box:
+            sb = box.sb
+            bases = [s.replace("$SB", sb) for s in case["search"]]
+            kw = {"ext": case["ext"], "reject_symlinks": case["rej"]}
+            env = Environment(loader=CachingFileSystemLoader(bases, auto_reload=case["auto"], capacity=case["cap"], **kw))
+            plain = Environment(loader=FileSystemLoader(bases, **kw))
+            loop = asyncio.new_event_loop() if case["mode"] == "async" else None
+            results, allowed_hist, stale = [], [], 0
+            allowed: set = set()
+            try:
+                for st in case["steps"]:
+                    if st["op"] == "load":
+                        allowed |= set(allowed_ids(bases, case["rej"]))
+                        r = _load(env, st["name"], case["mode"], "direct", loop)
+                        fresh = _load(plain, st["name"], case["mode"], "direct", loop)
+                        stale += int(r != fresh)
+                        results.append(r)
+                        allowed_hist.append(sorted(allowed))
+                    else:
+                        p = os.path.join(sb, st["path"])
+                        parent = os.path.dirname(p)
+                        if os.path.realpath(parent) != parent or not os.path.isdir(parent):
+                            continue  # the parent is no longer a plain directory: the step does not apply
+                        if os.path.islink(p) or os.path.isfile(p):
+                            os.remove(p)
+                        elif os.path.isdir(p):
+                            shutil.rmtree(p)
+                        if st["node"] is not None and os.path.isdir(os.path.dirname(p)):
+                            build_tree(os.path.dirname(p), {"d": {os.path.basename(p): st["node"]}}, sb)
+            finally:
+                if loop is not None:
+                    loop.run_until_complete(loop.shutdown_default_executor())
+                    loop.close()
+            return {"sb": sb, "results": results, "allowed": allowed_hist, "stale": stale}
+
+    def line_obs(self, case, obs):
+        sb = obs["sb"]
+        tree = self.start_tree(case)
+        steps = []
+        for st in case["steps"]:
+            if st["op"] == "load":
+                steps.append([model_fs(tree, sb), mtime_table(tree, sb), cps(st["name"])])
+            else:
+                parent = tree
+                ok = True
+                for c in st["path"].split("/")[:-1]:
+                    parent = parent["d"].get(c) if "d" in parent else None
+                    if parent is None or "d" not in parent:
+                        ok = False
+                        break
+                if ok:
+                    tree = tree_set(tree, st["path"], st["node"])
+        cfg = {"search": [cps(s.replace("$SB", sb)) for s in case["search"]], "ext": None if case["ext"] is None else cps(case["ext"]), "rej": case["rej"]}
+        return ["c22_cache", cfg, case["auto"], case["cap"], steps]
+
+    def compare_view(self, case, obs):
+        return obs["results"]
+
+    def canon_model(self, case, mobs):
+        if not isinstance(mobs, list):
+            return mobs
+        return [({"ok": [_s(r["ok"][0]), r["ok"][1]]} if isinstance(r, dict) and "ok" in r else r) for r in mobs]
+
+    def oracle(self, case, obs):
+        if not isinstance(obs, dict) or "allowed" not in obs:
+            return None
+        for r, allowed in zip(obs["results"], obs["allowed"]):
+            if "err" in r:
+                if r["err"] != "TemplateNotFoundError":
+                    return (f"cache|raises-{r['err']}", f"a request through the caching loader raised {r['err']}")
+            elif r["ok"][1] not in allowed:
+                return ("cache|outside", f"the caching loader returned content {r['ok'][1]!r} of {r['ok'][0]!r}, never inside the search path so far (reject_symlinks={case['rej']})")
+        return None
+
+    def nontrivial(self, case, obs):
+        return any(st["op"] == "set" for st in case["steps"])
+
+    def tags(self, case, obs):
+        return ["auto" if case["auto"] else "noauto", "rej" if case["rej"] else "norej", case["mode"], "stale" if obs["stale"] else "fresh"]
+
+    def shrink_candidates(self, case):
+        for i in range(len(case["steps"])):
+            yield {**case, "steps": case["steps"][:i] + case["steps"][i + 1:]}
+
+
 def streams(ctx):
-    return [PathlibStream(), SuffixStream(), JoinStream(), FsPrimStream(), FslStream(), PkgStream()]
+    return [PathlibStream(), SuffixStream(), JoinStream(), FsPrimStream(), FslStream(), PkgStream(), CacheStream()]
